@@ -203,6 +203,27 @@ def _resolve(res, found):
             if deps != want or sorted([want[0], str(tid)]) != loaded:
                 found.append(("resolve:wrong-directory", "':%s' listed in //%s/COND resolved to %s (loaded %s), expected %s"
                               % (nm, p, deps, loaded, want), {"pkg": p, "name": nm}))
+    # a package directory reached through another name (symbolic link to a sibling / to a nested package): the COND file that lists
+    # ':name' is, for this invocation, the one in the directory the identifier names
+    for alias, target in (("alias", "a"), ("a-b/link", "../a/b"), ("deep/er/alias", "../../B7")):
+        root3 = driver.fresh_project(files, name="resolve3")
+        os.makedirs(os.path.dirname(os.path.join(root3, alias)) or root3, exist_ok=True)
+        os.symlink(target, os.path.join(root3, alias))
+        for nm in NAMES:
+            res["evals"] += 1
+            idx = TaskIndex(pathlib.Path(root3))
+            tid = TI.from_str("//%s:dep-on-%s" % (alias, nm))
+            try:
+                idx.load_transitive_closure(tid)
+                deps = [str(d) for d in idx.get_task(tid).deps]
+                loaded = sorted(str(k) for k in idx.get_all_loaded_tasks())
+            except Exception as ex:  # noqa
+                deps, loaded = ["%s: %s" % (type(ex).__name__, ex)], []
+            want = ["//%s:%s" % (alias, nm)]
+            res["sigs"].add("resolve-alias:%s:%s" % (alias, nm))
+            if deps != want or sorted([want[0], str(tid)]) != loaded:
+                found.append(("resolve:wrong-directory-alias", "':%s' listed in the COND file of //%s (a symbolic link to %s) resolved to %s (loaded %s), "
+                              "expected %s" % (nm, alias, target, deps, loaded, want), {"pkg": alias, "name": nm}))
     # the same relative strings listed by several COND files, all loaded by ONE index in one invocation (both orders)
     for order in (list(PKGS), list(reversed(PKGS))):
         deps = ["//%s:dep-on-%s" % (p, nm) for p in order for nm in NAMES]
